@@ -34,8 +34,8 @@ def gen_attr(rng, arch, depth=0):
         s = rng.choice(STRS)
         it = rng.choice([4, 5, 67])
         return uleb(t) + uleb(it) + s.encode('utf-8') + b'\0', (t, (it, s, None), None)
-    v = rng.choice([0, 1, 2, 3, 127, 128, 300, 16383, 16384, 2 ** 21, 2 ** 28, 2 ** 32 - 1])
-    pad = rng.choice([0, 0, 0, 1])
+    v = rng.choice([0, 1, 2, 3, 127, 128, 300, 16383, 16384, 2 ** 21, 2 ** 28, 2 ** 32 - 1, 2 ** 35 + 1, 2 ** 42 + 7, 2 ** 63, 2 ** 64 - 1])
+    pad = rng.choice([0, 0, 0, 1, 6])
     return uleb(t) + uleb(v, pad), (t, v, None)
 
 
@@ -54,7 +54,7 @@ def gen_section(rng, arch, le, nsub=None):
             nums = []
             numb = b''
             if scope != 1:
-                nums = [rng.choice([1, 2, 127, 128, 5000]) for _ in range(rng.choice([0, 1, 3]))]
+                nums = [rng.choice([1, 2, 127, 128, 5000, 2 ** 35 + 3, 2 ** 42 + 7]) for _ in range(rng.choice([0, 1, 3]))]
                 numb = b''.join(uleb(x) for x in nums) + b'\0'
             attrs = b''
             ea = []
